@@ -230,6 +230,9 @@ func cmdCheck(args []string) {
 			}
 			if matchFunc(pc.Functions, c.Pkg, c.Key) && !matchFunc(pc.Exclude, c.Pkg, c.Key) {
 				work = append(work, key)
+			} else if *focus != "" && c.NoVerify == "" && P.SSAPkgs[c.Pkg] != nil && strings.Contains(displayName(c.Pkg, c.Key), *focus) {
+				// self-test focus mode does not walk the closure: a focused function that is only reached through it is added directly
+				work = append(work, key)
 			}
 		}
 		if len(work) == 0 {
